@@ -6,7 +6,7 @@ package curves
 
 //@ iface (c SpeedCurve).Evaluate() (value int, err error)
 //@   ensures[C06.range C07] err == nil ==> 0 <= value && value <= 255
-//@   modifies memberVals, memberCount, each(*LinearSpeedCurve).Value, each(*FunctionSpeedCurve).Value, each(*PidSpeedCurve).Value, lastAvgRead, lastValue, lastInterp, segLo, segHi, segHit, each(*util.PidLoop).integral, each(*util.PidLoop).error, each(*util.PidLoop).lastTime, lastPidOut, procWorld, started, lastReadFailed
+//@   modifies memberVals, memberCount, each(*LinearSpeedCurve).Value, each(*FunctionSpeedCurve).Value, each(*PidSpeedCurve).Value, lastAvgRead, lastValue, lastInterp, segLo, segHi, segHit, each(*util.PidLoop).integral, each(*util.PidLoop).error, each(*util.PidLoop).lastTime, lastPidOut, pidSteps, procWorld, started, lastReadFailed
 
 // ---- registry ---------------------------------------------------------------------------------------
 //@ ghost var curveReg gset[string]
@@ -67,7 +67,7 @@ package curves
 //@   ensures[C06.minimum C07] err == nil && c.Config.Function.Type == "minimum" ==> (forall j :: 0 <= j && j < memberCount ==> value <= memberVals[j]) && (exists j :: 0 <= j && j < memberCount && value == memberVals[j])
 //@   ensures[C06.maximum C07] err == nil && c.Config.Function.Type == "maximum" ==> (forall j :: 0 <= j && j < memberCount ==> value >= memberVals[j]) && (exists j :: 0 <= j && j < memberCount && value == memberVals[j])
 // (attempted, not counted: C06.delta "value == largest - smallest member" does not discharge within the time limit; its range clause does)
-//@   modifies memberVals, memberCount, each(*LinearSpeedCurve).Value, each(*FunctionSpeedCurve).Value, each(*PidSpeedCurve).Value, lastAvgRead, lastValue, lastInterp, segLo, segHi, segHit, each(*util.PidLoop).integral, each(*util.PidLoop).error, each(*util.PidLoop).lastTime, lastPidOut, procWorld, started, lastReadFailed
+//@   modifies memberVals, memberCount, each(*LinearSpeedCurve).Value, each(*FunctionSpeedCurve).Value, each(*PidSpeedCurve).Value, lastAvgRead, lastValue, lastInterp, segLo, segHi, segHit, each(*util.PidLoop).integral, each(*util.PidLoop).error, each(*util.PidLoop).lastTime, lastPidOut, pidSteps, procWorld, started, lastReadFailed
 //@   loop 1 "for _, curveId := range c.Config.Function.Curves"
 //@     invariant -1 <= rangeindex && rangeindex < len(c.Config.Function.Curves) && len(curves) == rangeindex + 1 && (arrayOf(curves) == 0 || arrayOf(curves) >= old(W)) && (len(curves) == 0 ==> cap(curves) == 0)
 //@     invariant forall j :: 0 <= j && j < len(curves) ==> curves[j] != nil
@@ -101,7 +101,7 @@ package curves
 //@   ensures[C06.range C07]   err == nil ==> 0 <= value && value <= 255
 //@   ensures[C06.pid C07]     err == nil && !isnan(lastPidOut) ==> value == int(util.clamp01(lastPidOut) * 255.0)
 //@   ensures[C06.current C07] err == nil ==> c.Value == value
-//@   modifies c.Value, c.pidLoop.integral, c.pidLoop.error, c.pidLoop.lastTime, lastValue, lastPidOut, procWorld, started, lastReadFailed
+//@   modifies c.Value, c.pidLoop.integral, c.pidLoop.error, c.pidLoop.lastTime, lastValue, lastPidOut, pidSteps, procWorld, started, lastReadFailed
 
 // ---- trivial getters (generated by `govc gengetters`, verified like every other contract) ------------------
 //@ func (*FunctionSpeedCurve).GetId
